@@ -124,10 +124,22 @@ def conv_veto_alt():
     return f
 
 
+def make_conv_tag(prefix, veto_first):
+    def conv_tag(upper=False):
+        def f(s):
+            if s.startswith(veto_first):
+                return None
+            return prefix + (s.upper() if upper else s)
+        return f
+    return conv_tag
+
+
 # A converter table belongs to ONE router: the built-ins plus what was registered on that router.
 CONVERTERS = {          # name -> (factory, consumes the remaining segments): the check's standard profile
     'int': (conv_int, False), 'float': (conv_float, False), 'uuid': (conv_uuid, False),
     'dt': (conv_dt, False), 'path': (conv_path, True), 'veto': (conv_veto, False), 'rest': (conv_rest, True),
+    # two harness converters whose classes share one __name__ but behave differently
+    'tagA': (make_conv_tag('A:', 'a'), False), 'tagB': (make_conv_tag('B:', 'b'), False),
 }
 # the check's alternative profile: 'int' and 'veto' replaced on that router, 'hex' added
 CONVERTERS_ALT = dict(CONVERTERS, int=(conv_hexint, False), veto=(conv_veto_alt, False), hex=(conv_hexint, False))
